@@ -25,7 +25,7 @@ RULE = (
     "Distinct = SHA-256 of (config, address list)."
 )
 ASSUMPTIONS = [
-    "grey: allow list present but empty, scoped IPv6 peers, IPv4-mapped IPv6 peers against IPv4 networks, entries with host bits set",
+    "scoped IPv6 peers (addr%zone) are decided on the address; grey: allow list present but empty, IPv4-mapped IPv6 peers against IPv4 networks, entries with host bits set",
 ]
 
 
@@ -124,9 +124,13 @@ def case_st(draw):
             continue
         fam, base, plen, bits = p
         size = 1 << (bits - plen)
+        scoped = fam == socket.AF_INET6 and draw(st.booleans())
         for v in (base, base + size - 1, base - 1, base + size):
             if 0 <= v < (1 << bits):
                 peers.append(from_int(fam, v))
+                if scoped:
+                    # the same address as a link-local peer reports it (zone id appended)
+                    peers.append(from_int(fam, v) + draw(st.sampled_from(["%eth0", "%1", "%lo"])))
     for _ in range(draw(st.integers(1, 4))):
         k = draw(st.integers(0, 3))
         if k == 0:
@@ -137,16 +141,23 @@ def case_st(draw):
             peers.append(draw(st.sampled_from(MALFORMED_PEERS)))
     return {"allow": allow, "deny": deny, "default_allow": draw(st.booleans()),
             "enabled": draw(st.sampled_from([True, True, True, False])),
-            "layer": draw(st.sampled_from(["object", "config", "toml", "server"])), "peers": peers}
+            "layer": draw(st.sampled_from(["object", "config", "toml", "server", "titan"])), "peers": peers}
 
 
 def ref_decision(case, peer: str):
     """'admit' | 'refuse' | 'grey'"""
-    if "%" in peer or peer.lower().startswith("::ffff:"):
+    if peer.lower().startswith("::ffff:"):
         return "grey"
+    if "%" in peer:
+        # scoped IPv6: the zone names an interface, the address is what the lists are about
+        addr, _, zone = peer.partition("%")
+        t6 = to_int(addr)
+        if not zone or "%" in zone or t6 is None or t6[0] != socket.AF_INET6 or not zone.isalnum():
+            return "grey"
+        peer = addr
     t = to_int(peer)
     if t is None:
-        if case["layer"] != "object" and not case["allow"] and not case["deny"] and case["default_allow"]:
+        if case["layer"] not in ("object", "titan") and not case["allow"] and not case["deny"] and case["default_allow"]:
             return "grey"  # trivial policy: no middleware is installed, nothing inspects the address
         return "refuse"
     denies = [parse_entry(e) for e in (case["deny"] or [])]
@@ -208,6 +219,35 @@ def decide_all(case):
     from nauyaca.server.middleware import AccessControl, AccessControlConfig
 
     layer = case["layer"]
+    if layer == "titan":
+        # the policy in front of an upload handler: a refused peer's upload must not be stored
+        from nauyaca.server.middleware import MiddlewareChain
+        from nauyaca.server.protocol import GeminiServerProtocol
+        from vlib import srvsim
+
+        ac = AccessControl(AccessControlConfig(allow_list=case["allow"], deny_list=case["deny"], default_allow=case["default_allow"]))
+
+        async def up(loop):
+            out = []
+            for p in case["peers"]:
+                sim = srvsim.Sim(loop)
+                handler = srvsim.build_handler(sim, {"kind": "value", "status": 20, "meta": "text/gemini", "body": "x"})
+                spy = srvsim.build_upload(sim, {"kind": "value", "status": 20, "meta": "text/gemini", "body": "STORED"})
+                tr = FakeTransport(loop, peername=(p, 40000))
+                tr.attach(GeminiServerProtocol(handler, MiddlewareChain([ac]), spy))
+                tr.feed(b"titan://localhost/f.gmi;size=4;token=t\r\nDATA")
+                await vloop.settle(8)
+                S = tr.written()
+                ran = [e for e in sim.log if e[0] in ("upload", "handler")]
+                if S.startswith(b"53 "):
+                    out.append("refuse" if not ran else "refused-but-upload-ran")
+                elif S.startswith(b"20 "):
+                    out.append("admit" if len(ran) == 1 else "admit-with-%d-invocations" % len(ran))
+                else:
+                    out.append("other:" + b2s(S[:30]))
+            return out
+
+        return vloop.run(up)
     if layer == "object":
         ac = AccessControl(AccessControlConfig(allow_list=case["allow"], deny_list=case["deny"], default_allow=case["default_allow"]))
 
@@ -262,7 +302,7 @@ def run_case(case: dict):
     except ValueError as e:
         return viol("valid-configuration-rejected", f"{e} for allow={case['allow']} deny={case['deny']}")
     stats = {"admit": 0, "refuse": 0, "grey": 0}
-    policy_on = case["layer"] == "object" or case["enabled"]
+    policy_on = case["layer"] in ("object", "titan") or case["enabled"]
     for p, g in zip(case["peers"], got):
         ref = ref_decision(case, p) if policy_on else "admit"
         if ref == "grey":
